@@ -52,6 +52,12 @@ class C17(Prop):
             v = {'crlf': to_crlf(t), 'trail': add_trailing(rng, t), 'blank': t + '\n' * rng.randint(1, 5) if rng.random() < 0.5 else t + '\n' + '\n'.join(' ' * rng.randint(0, 3) for _ in range(rng.randint(1, 4)))}
             if rng.random() < 0.5: v['crlftrail'] = to_crlf(add_trailing(rng, t))
             out.append(self.make(g, t, v))
+        # the header as the very last line, with nothing (not even a line end) after it: blanks after it must not matter either
+        for body in ['+----+\n| ab |\n+----+\n\n', 'a--b\n', '', '{x}\n\n', ' .-.\n( a )\n `-\'\n']:
+            for hdr in ['# Legend:', '  # Legend:']:
+                t = body + hdr
+                v = {'trail': t + ' ', 'trail-tab': t + '\t', 'trail2': t + '  \t ', 'crlf': to_crlf(t), 'crlftrail': to_crlf(t) + '  ', 'eol': t + '\n', 'eol-trail': t + ' \n'}
+                out.append(self.make('header-last', t, v))
         return out
     def item_from_json(self, j): return item_from_json(None, j)
     def oracle(self, it):
